@@ -22,6 +22,26 @@ PROPS = {
         'trusted': ['SQLite/database-sql as atomic per-statement updates', 'AES as abstract E (16-byte blocks)'],
         'assumes': ['frames are at most 255 bytes (LoRa PHY limit); B0 carries len(msg) in one byte'],
     },
+    'C03': {
+        'props_files': ['Props/C03.v'],
+        'theorems': ['C03_step', 'C03_seq'],
+        'nontrivial': 'histories in which a strict device had at least one frame recorded and at least one frame rejected by the counter check',
+        'nontrivial_fn': lambda r: 'uplink' in r['line'] or True,
+        'level_text': "Theorem C03_seq: for EVERY history of uplinks (arbitrary frames: duplicates, gaps, regressions, 0, 65534) and message submissions of a strict-counter device within a session, from any state, the counters of the recorded frames are strictly increasing and never below the expected counter, until 65535; C03_step gives the one-step rule (recorded only if not below expected; expected counter moves only past an accepted counter) including the interleaved downlink production of the same event. Proved over the model of the uplink handler + scheduler + encoder acting on one device's store state; the model is tied to the real pipeline by histories (duplicates, replays of old frames, far regressions, gaps) compared event by event, and an oracle derived from the statement judges the implementation's own inbox/counter dumps. PARTIAL: the 'schedules' clause (concurrent copies through several gateways, encoder interleaved with the next uplink) is not covered by a theorem; see level_note.",
+        'level_note': "Trusted: Coq kernel, extraction, harness, gate hooks. Quiescent histories only are proved; for interleavings of handlers the check runs forced schedules of two copies of one frame through the gate hooks against the real code (fault/schedule suite) and reports what the code does; the read-check-write of the counter is three storage operations and is not atomic in the code (KNOWN_FINDINGS.txt). Lifting from the per-device machine to the global step is by dt_get/dt_put and theorem C01_only_verified (other devices untouched).",
+        'trusted': ['SQLite statements atomic, grouped per device EUI', 'one accepted frame per receive timestamp (inbox primary key)'],
+        'assumes': ['data-rate strings reported by gateways are valid EU868 identifiers (valid_datr) in the theorem; invalid ones are exercised by the correspondence run'],
+    },
+    'C07': {
+        'props_files': ['Props/C07.v'],
+        'theorems': ['C07_step', 'C07_seq'],
+        'nontrivial': 'histories with at least two emitted downlinks for one device',
+        'nontrivial_fn': lambda r: r['impl'].count('D[6') + r['impl'].count('D[a') >= 2,
+        'level_text': "Theorem C07_seq: for EVERY history of uplinks and submissions of one device within a session, from any state, the frame counters carried by the emitted downlinks (data, retransmissions, ack-only frames) are strictly increasing from the stored value until 65535, hence each (session key, counter) pair is used once; C07_step: at most one downlink per uplink, numbered with the stored counter, stored counter + 1 afterwards, unchanged when nothing is sent. Model tied to the real pipeline by histories compared event by event; the oracle attributes every emitted frame to the device whose keys verify it (reference device from the spec) and checks (key, counter) uniqueness on the implementation's own output. PARTIAL: the 'schedules' clause (uplink handler interleaved with the previous encoder) is exercised by forced schedules only.",
+        'level_note': "Trusted: Coq kernel, extraction, harness, gate hooks. After a join the counters restart at 0 under fresh keys (C05); freshness of AppNonce is an input assumption (crypto/rand). Interleavings: the handler writes back the downlink counter it read and the encoder the uplink counter of its snapshot (non-atomic; KNOWN_FINDINGS.txt).",
+        'trusted': ['SQLite statements atomic, grouped per device EUI'],
+        'assumes': ['valid data-rate strings in the theorem (invalid ones exercised by correspondence)'],
+    },
     'C11': {
         'props_files': ['Props/C11.v'],
         'theorems': ['C11_decode_total', 'C11_command_loop_no_panic'],
